@@ -561,7 +561,57 @@ func knownDistinct(a, b *Term) bool {
 	return false
 }
 
+// constant tables: a term of array sort whose elements are known; reads become balanced if-then-else trees
+// over the index bits (store chains of hundreds of entries make the solvers hang, mux trees do not)
+var constTableVals = map[*Term][]*Term{}
+
+func ConstTable(name string, elem *Sort, vals []*Term) *Term {
+	t := newTerm("consttable_"+sanitize(name), SArray(SInt, elem))
+	t.Lit = true
+	constTableVals[t] = vals
+	return t
+}
+
+func leadsToTable(t *Term) bool {
+	if _, ok := constTableVals[t]; ok {
+		return true
+	}
+	if t.Op == "ite" && len(t.Args) == 3 {
+		return leadsToTable(t.Args[1]) && leadsToTable(t.Args[2])
+	}
+	return false
+}
+
+func muxTree(vals []*Term, idx *Term, bit int) *Term {
+	if len(vals) == 1 {
+		return vals[0]
+	}
+	half := 1 << uint(bit)
+	if len(vals) <= half {
+		return muxTree(vals, idx, bit-1)
+	}
+	lo := muxTree(vals[:half], idx, bit-1)
+	hi := muxTree(vals[half:], idx, bit-1)
+	return Ite(Eq(Extract(bit, bit, idx), BVLit(1, 1)), hi, lo)
+}
+
 func Select(arr, idx *Term) *Term {
+	if vals, ok := constTableVals[arr]; ok {
+		if v, isLit := idx.IsLitBV(); isLit && v < uint64(len(vals)) {
+			return vals[v]
+		}
+		bits := 0
+		for (1 << uint(bits)) < len(vals) {
+			bits++
+		}
+		if bits == 0 {
+			return vals[0]
+		}
+		return muxTree(vals, idx, bits-1)
+	}
+	if arr.Op == "ite" && len(arr.Args) == 3 && leadsToTable(arr) {
+		return Ite(arr.Args[0], Select(arr.Args[1], idx), Select(arr.Args[2], idx))
+	}
 	// read-over-write simplification on syntactically equal / provably distinct indices
 	a := arr
 	for a.Op == "store" && len(a.Args) == 3 {
